@@ -76,6 +76,9 @@ theorem sort_step (c : Cfg) (s : State) (a : Act) (s' : State) (h : SortInv s) (
   | drainCancelRun hc hq hp =>
     simp only [hq, qidx, List.cons_append] at h1 h2
     exact ⟨(List.pairwise_cons.mp h1).2, fun i hi => h2 i (List.mem_cons_of_mem _ hi)⟩
+  | drainDetach hc hq hp =>
+    simp only [hq, qidx, List.cons_append] at h1 h2
+    exact ⟨(List.pairwise_cons.mp h1).2, fun i hi => h2 i (List.mem_cons_of_mem _ hi)⟩
   | drainSkip hc hq hp =>
     simp only [hq, qidx, List.cons_append] at h1 h2
     exact ⟨(List.pairwise_cons.mp h1).2, fun i hi => h2 i (List.mem_cons_of_mem _ hi)⟩
@@ -245,6 +248,11 @@ theorem prog_step (c : Cfg) (s : State) (a : Act) (s' : State) (hph : PhaseInv s
     · exact Or.inr (Or.inl h)
     · exact Or.inr (Or.inr h)
   | drainCancelRun hc hq hp =>
+    refine ⟨?_, by simp [hc]⟩
+    intro i hi
+    simp only [hc, cIdx, List.nil_append] at hi
+    exact g1 i (by simp only [hc, hq, cIdx, qidx, List.nil_append, List.cons_append]; exact List.mem_cons_of_mem _ hi)
+  | drainDetach hc hq hp =>
     refine ⟨?_, by simp [hc]⟩
     intro i hi
     simp only [hc, cIdx, List.nil_append] at hi
